@@ -65,6 +65,20 @@ def frac_of(v):
     return Fraction(v)
 
 
+def _close_text(a, b):
+    """two displayed arrays of numbers agree (numerals to 1e-9 relative: one side may have computed in floating point)"""
+    import re as _re
+    pat = r"-?\d+(?:\.\d+)?(?:e[-+]?\d+)?(?:/\d+)?"
+    na, nb = _re.findall(pat, a), _re.findall(pat, b)
+    if len(na) != len(nb):
+        return False
+    for x, y in zip(na, nb):
+        fx, fy = float(Fraction(x)), float(Fraction(y))
+        if abs(fx - fy) > 1e-9 * max(1.0, abs(fx)):
+            return False
+    return True
+
+
 def check(ctx):
     R = ctx.real
     T = R.types
@@ -283,7 +297,10 @@ def check(ctx):
     big_units = [u for u in big_units if u not in ("in", "to", "e")] or ["ly", "pc", "cal", "acre", "hp"]
     qtexts = ["1e300 ly", "-1e300 ly", "2e292 pc", "1e308 cal", "1.7e308 acre", "{1e300 ly}", "x = 1e300 ly; x - x", "x = 1e300 ly; x*0",
               "x = 1e300 ly; x/x", "sin(1e300 ly)", "abs(-1e300 ly)", "1e308 hp + 1e308 hp", "[1e300 ly, 2e300 ly]", "1e300 ly to m",
-              "1e300 ly < 2e300 ly", "sqrt(1e300 ly * 1e300 ly)", "1e200 ly * 1e200 ly"]
+              "1e300 ly < 2e300 ly", "sqrt(1e300 ly * 1e300 ly)", "1e200 ly * 1e200 ly",
+              # the FACTORS of a unit signature overflow on their own, whatever the magnitude (0 * inf would be nan)
+              "0 ly^19 ly^19", "0 ly^10 au^30 pc^5", "0.0 ly^19 ly^19", "0 ly^19 ly^19 to m^38", "5 m^38 to ly^19 ly^19", "0 ly^19 ly^19 + 1 m^38",
+              "{0 ly^19 ly^19}", "x = 0 ly^19 ly^19; x - x", "0 pc^12 pc^12", "0 ly^-19 ly^-19", "1 ly^-19 ly^-19", "0 ly^19 | ly^-19"]
     for _ in range(ctx.n(60, 1500)):
         m = "%se%d" % (rng.choice(["1", "-1", "1.7", "9.9", "-2.5"]), rng.randrange(285, 309))
         u = rng.choice(big_units)
@@ -296,6 +313,26 @@ def check(ctx):
             ctx.violation("elem-escape:" + text, text, "a value or a diagnosed error", r["escaped"], how)
         elif r["status"] == 0 and (any_bad(r["value"]) or re.search(r"\b(inf|nan)\b", r["out"])):
             ctx.violation("elem-nonfinite:" + text, text, "finite or error", r["out"].strip()[:80], how)
+    # ---------------- numbers that reach a function WITHOUT having been simplified: the elements of sample(Uniform(n, n), k) are raw floats
+    # (float(n)); bound by a comprehension they must behave as the number n does (a whole-valued float is in the domain of `^` with a
+    # negative base, of log as a base, …)
+    for fn in FNS:
+        for n_ in ("4", "0-3", "0", "1", "2"):
+            a_ = R.execute("{%s(x) : x in sample(Uniform(%s, %s), 1)}" % (fn, n_, n_))
+            b_ = R.execute("{%s(%s)}" % (fn, n_))
+            ctx.count("rawfloat:%s(%s)" % (fn, n_), bucket="raw-float-from-sample")
+            if (a_["status"], a_["escaped"]) != (b_["status"], b_["escaped"]) or (a_["status"] == 0 and not _close_text(a_["out"], b_["out"])):
+                ctx.violation("elem-rawfloat:%s(%s)" % (fn, n_), "{%s(x) : x in sample(Uniform(%s, %s), 1)}" % (fn, n_, n_), b_["out"].strip() or "status 1",
+                              a_["out"].strip() or "status %s %s %s" % (a_["status"], a_["escaped"] or "", a_["err"].strip()[:80]), "execute of both texts")
+    for b0 in ("0-8", "(0-1/2)", "2", "0", "1.5", "0-1"):
+        for e0 in ("3", "2", "0", "0-1", "1", "0-2"):
+            t1 = "{(%s)^x : x in sample(Uniform(%s, %s), 1)}" % (b0, e0, e0)
+            a_ = R.execute(t1)
+            b_ = R.execute("{(%s)^(%s)}" % (b0, e0))
+            ctx.count("rawfloat-pow:%s^%s" % (b0, e0), bucket="raw-float-from-sample")
+            if (a_["status"], a_["escaped"]) != (b_["status"], b_["escaped"]) or (a_["status"] == 0 and not _close_text(a_["out"], b_["out"])):
+                ctx.violation("elem-rawfloat-pow:%s^%s" % (b0, e0), t1, b_["out"].strip() or "status 1 " + b_["err"].strip()[:60],
+                              a_["out"].strip() or "status %s %s %s" % (a_["status"], a_["escaped"] or "", a_["err"].strip()[:80]), "execute of both texts")
     # ---------------- accuracy clause (test)
     refs = mp_ref(refreq)
     tested = 0
